@@ -94,6 +94,9 @@ def lineLoop (p : Proto W I) : List Bytes → Proto W I × Kind
 /-- The remainder limit of the `else:` clause. -/
 def remainderLimit : Nat := maxAuthLength + authDelimiter.length - remainderSlack
 
+/-- `self._firstByte = False` (the NUL byte is dropped from the read) -/
+def Proto.dropFirst (p : Proto W I) : Proto W I := { p with firstByte := false }
+
 /-- `self._buffer = ...` -/
 def Proto.setBuf (p : Proto W I) (r : Bytes) : Proto W I := { p with buffer := r }
 
@@ -116,7 +119,7 @@ def recv (p : Proto W I) (data : Bytes) : Proto W I :=
   else if p.firstByte then
     match data with
     | [] => p.crash                                     -- data[0]: IndexError
-    | b :: d => if b ≠ 0 then p.close else recvLines S { p with firstByte := false } d
+    | b :: d => if b ≠ 0 then p.close else recvLines S p.dropFirst d
   else recvLines S p data
 
 /-- A sequence of reads. -/
